@@ -13,6 +13,8 @@ pub struct ClockState {
     pub log: RefCell<Vec<(u16, u16, u8)>>,
     pub date_log: RefCell<Vec<u16>>,
     pub handouts: Cell<u64>,
+    /// a clock that always returns the same instant (like NullTimeProvider): timestamps never change
+    pub frozen: Cell<bool>,
 }
 
 #[derive(Debug, Clone)]
@@ -59,11 +61,18 @@ impl Clock {
             log: RefCell::new(Vec::new()),
             date_log: RefCell::new(Vec::new()),
             handouts: Cell::new(0),
+            frozen: Cell::new(false),
         }))
     }
     /// start of an API call: next day, tick 0, logs cleared
     pub fn begin_call(&self) {
         let s = &self.0;
+        s.log.borrow_mut().clear();
+        s.date_log.borrow_mut().clear();
+        if s.frozen.get() {
+            s.tick.set(0);
+            return;
+        }
         let d = s.day.get() + 1;
         s.day.set(if d >= MAX_DAY { 1 } else { d });
         s.tick.set(0);
@@ -79,7 +88,9 @@ impl Clock {
     fn now(&self) -> ((u16, u16, u16), (u16, u16, u16, u16)) {
         let s = &self.0;
         let t = s.tick.get();
-        s.tick.set((t + 1) % 40_000);
+        if !s.frozen.get() {
+            s.tick.set((t + 1) % 40_000);
+        }
         s.handouts.set(s.handouts.get() + 1);
         let secs = t * 2 + 1; // odd seconds exercise the 10ms field
         let h = (secs / 3600) as u16;
